@@ -18,7 +18,9 @@ RULE = ("cases from props/C01.py gen(): vi/pe cases run ValueIteration/PolicyEva
         "solve cases cross-check VI / PolicyIteration / LinearProgramming by the Bellman residual; pi cases compare PolicyIteration "
         "with the model; seq cases reuse ONE ValueIteration / PolicyIteration / LinearProgramming object (and one PolicyEvaluation "
         "object per model over two policies) across 2-3 models of equal or different shape and all representations, each answer "
-        "judged as a fresh solve; via cases start VI from a ValueFunction with a short action vector; learn cases run VI on "
+        "judged as a fresh solve; mut cases mutate one Model / SparseModel object (setRewardFunction, setTransitionFunction, setDiscount) "
+        "between calls of solvers built once, each call judged against the object's current tables; chain cases are 115-161 state "
+        "corridors on which PolicyIteration needs > 100 improvement rounds (oracle only); via cases start VI from a ValueFunction with a short action vector; learn cases run VI on "
         "MaximumLikelihoodModel. non-trivial = horizon > 0 and more than one state (solve: also more than one action); "
         "distinct by md5 of the case line")
 TRUSTED_BASE = [
@@ -409,9 +411,84 @@ def gen_seq(rng):
     return " ".join(toks)
 
 
+def gen_mut(rng):
+    """one Model and one SparseModel object mutated through setRewardFunction / setTransitionFunction /
+    setDiscount between calls of solvers built once (PolicyEvaluation keeps a reference to its model)"""
+    dy = rng.random() < 0.75
+    S = rng.choice([1, 2, 2, 3]); A = rng.choice([1, 2, 2]) if dy else rng.choice([1, 2, 3])
+    j = rng.choice([1, 2]); D = 1 << j
+    gams = [(1, 2, 1), (3, 4, 2)] if dy else [(0.5,), (0.75,), (0.9,)]
+    def fresh():
+        if S >= 2 and rng.random() < 0.3: return trap_model(rng, S, A, dy, j)
+        if dy:
+            t = dy_rows(rng, S, A, j); _, r = dy_rewards(rng, S, A)
+        else:
+            t = ge_rows(rng, S, A); r = ge_rewards(rng, S, A, allow_scale=False)
+        return t, r
+    def tt(t):
+        out = []
+        for s in range(S):
+            for a in range(A):
+                out += [q(x, D) if x not in (0, D) else ("0" if x == 0 else "1") for x in t[s][a]] if dy else [hx(x) for x in t[s][a]]
+        return out
+    def rr(r):
+        out = []
+        for s in range(S):
+            for a in range(A): out += [str(x) for x in r[s][a]] if dy else [hx(x) for x in r[s][a]]
+        return out
+    def gtok(g): return q(g[0], g[1]) if dy else hx(g[0])
+    def pol():
+        out = []
+        for s in range(S):
+            if dy: out += [q(x, 2) for x in composition(rng, 2, A)]
+            else:
+                w = [rng.random() for _ in range(A)]; tot = sum(w); out += [hx(x / tot) for x in w]
+        return out
+    k = rng.choice([1, 2, 2, 3])
+    if dy:
+        h = rng.randint(1, min(6, (52 - 7 - j - 2) // (j + 2 + 1))); tol = rng.choice(["0", "0", "1/8", "1/64"])
+    else:
+        h = rng.choice([1, 2, 3]); tol = rng.choice([hx(0.0), hx(1e-2)])
+    hpi = rng.choice([1, 2])
+    gam = rng.choice(gams)
+    t, r = fresh()
+    toks = ["mut", "dy" if dy else "ge", str(S), str(A), gtok(gam), str(k), str(h), tol, str(hpi), str(j + 2 + 1) if dy else "0"]
+    if rng.random() < 0.3:
+        toks += [str(S)] + ([q(rng.randint(-32, 32), 4) for _ in range(S)] if dy else [hx(rng.uniform(-5, 5)) for _ in range(S)])
+    else:
+        toks += ["0"]
+    toks += tt(t) + rr(r) + pol()
+    for _ in range(k):
+        ops = rng.choice(["R", "R", "R", "T", "D", "TR", "RT", "RD", "TRD"])
+        toks.append(ops)
+        for ch in ops:
+            if ch == "T": t2, _ = fresh(); toks += tt(t2)
+            elif ch == "R": _, r2 = fresh(); toks += rr(r2)
+            else:
+                gam = rng.choice([g for g in gams if g != gam]); toks.append(gtok(gam))
+        toks += pol()
+    return " ".join(toks)
+
+
+def gen_chain(rng, small=False):
+    """deterministic corridor (see harness runChain): Howard policy iteration repairs one state per
+    improvement round starting from the goal, i.e. needs about n rounds (n = 110..160)"""
+    n = rng.randint(114, 128) if small else rng.randint(114, 160)
+    gamma = rng.choice([1.0 - 2.0 ** -5, 1.0 - 2.0 ** -6, 1.0 - 2.0 ** -7])
+    tol = rng.choice([1e-4, 1e-5])
+    M = 1.0 / (1.0 - gamma)
+    b0 = rng.uniform(0.8, 0.95); slope = rng.uniform(0.25, 0.4)
+    pay = [gamma ** (n - 1 - i) * M * (b0 - slope * i / n) for i in range(n - 1)]
+    return " ".join(["chain", "ge", str(n + 1), "2", hx(gamma), hx(tol), "1000000", str(n - 1)] + [hx(x) for x in pay])
+
+
 def gen(rng, tier):
     n = {"quick": 420, "thorough": 2200, "search": 1200}[tier]
     out = []
+    # long corridors are expensive (about n policy-iteration rounds): a fixed small number per run
+    # (exact-rational oracle on ~150 states costs ~10 s per case; the corpus holds one more chain)
+    for _ in range({"quick": 1, "thorough": 2, "search": 1}[tier]):
+        out.append(gen_chain(rng, small=(tier != "thorough")))
     for _ in range(n):
         u = rng.random()
         if u < 0.45: out.append(gen_dy(rng, "vi"))
@@ -420,7 +497,8 @@ def gen(rng, tier):
         elif u < 0.86: out.append(gen_ge(rng, "pe"))
         elif u < 0.91: out.append(gen_solve(rng))
         elif u < 0.93: out.append(gen_pi(rng))
-        elif u < 0.96: out.append(gen_seq(rng))
-        elif u < 0.968: out.append(gen_via(rng))
+        elif u < 0.95: out.append(gen_seq(rng))
+        elif u < 0.965: out.append(gen_mut(rng))
+        elif u < 0.972: out.append(gen_via(rng))
         else: out.append(gen_learn(rng))
     return out
